@@ -83,8 +83,8 @@ Section Adequacy.
   Proof.
     apply parse_rel_mutind.
     - (* E_prefix *)
-      intros rbp r p its x mid u t rest Hops _ IH1 Hpre _ IH2.
-      eapply ev_S; [intro m; cbn; rewrite Hops; reflexivity|].
+      intros rbp i r p its x mid u t rest Hop Hops _ IH1 Hpre _ IH2.
+      eapply ev_S; [intro m; cbn; rewrite Hop, Hops; reflexivity|].
       eapply ev_bind; [eapply ev_bind; [exact IH1|]; cbn; rewrite Hpre; cbn; apply ev_const|].
       exact IH2.
     - (* E_primary *)
